@@ -8,6 +8,13 @@ structure after every step equals the specification's, _check() passes, the
 process survives (the job runs in a subprocess; thorough tier on the sanitizer
 build).
 
+With job['evict'] (C05): the tree lives in the stand-in data manager; it is committed when the cursor is
+opened and the object cache is swept (every up-to-date node becomes a ghost, the leaf the cursor is parked on
+included) before every cursor step.  Ghosts are reloaded transparently: every outcome and the structure must
+still be exactly the specification's, and no node may stay pinned after a step.  (Behaviours whose tree has,
+at the commit, a non-root node with a single leaf child are replayed without the data manager: recorded
+finding D18 - that node's record embeds the leaf.)
+
 usage: python -m harness.workers.iter_worker JOB.json RESULT.json"""
 import json, sys
 
@@ -23,7 +30,24 @@ def main():
     with open(job['dump']) as fh:
         behaviours = json.load(fh)['payloads']      # behaviours written by tlc -simulate (lists of observations)
     sel = behaviours[job['part']::job['nparts']]
-    mism, counts = [], dict(behaviours=0, steps=0, cursor_steps=0, outcomes={})
+    mism, counts = [], dict(behaviours=0, steps=0, cursor_steps=0, outcomes={}, sweeps=0, ghosts_made=0, evict_behaviours=0, skipped_embed=0)
+    evict = bool(job.get('evict'))
+    if evict:
+        from harness import minijar
+
+    def embeds(p, root=True):
+        """a non-root interior node whose only child is a leaf (its record embeds that leaf: finding D18)"""
+        if p['t'] == 'L':
+            return False
+        if not root and len(p['kids']) == 1 and p['kids'][0]['t'] == 'L':
+            return True
+        return any(embeds(c, False) for c in p['kids'])
+
+    def sweep(jar):
+        before = sum(1 for _, o in jar.cache.items() if o._p_changed is not None)
+        jar.cache.minimize()
+        counts['sweeps'] += 1
+        counts['ghosts_made'] += before - sum(1 for _, o in jar.cache.items() if o._p_changed is not None)
 
     def setify(p):
         if not is_set:
@@ -37,6 +61,12 @@ def main():
 
     for bi, beh in enumerate(sel):
         t = cls()
+        jar = None
+        if evict:
+            jar = minijar.Jar(minijar.Store())
+            jar.add(t)
+        committed = False
+        prev_to = None
         cursor, kind, mode = None, 'k', None
         exact = True
         counts['behaviours'] += 1
@@ -69,6 +99,14 @@ def main():
                 elif op == 'clear':
                     t.clear()
                 elif op == 'open':
+                    if jar is not None:
+                        if prev_to is not None and embeds(prev_to):
+                            counts['skipped_embed'] += 1
+                        else:
+                            jar.commit()
+                            committed = True
+                            counts['evict_behaviours'] += 1
+                            sweep(jar)
                     mode = a['mode']
                     kind = 'k' if is_set else 'kvi'[(bi + len(hist)) % 3]
                     kw = dict(min=bnd(a['k']), max=bnd(a['v']), excludemin=a['xmin'], excludemax=a['xmax'])
@@ -89,6 +127,8 @@ def main():
                         cursor = getattr(t, f)(**kw)
                 elif op in ('next', 'getitem', 'len'):
                     counts['cursor_steps'] += 1
+                    if committed:
+                        sweep(jar)
                     try:
                         if op == 'next':
                             x = next(cursor)
@@ -146,6 +186,11 @@ def main():
                     if (again != got) if (impl == 'c' and exact) else (again[0] not in ('entry', 'stop', 'RuntimeError', 'IndexError')):
                         mism.append(dict(where, kind='sticky-outcome', model=got, real=again))
                         break
+            if committed:
+                pinned = [int.from_bytes(oid, 'big') for oid, o in jar.cache.items() if getattr(o, '_p_state', 0) == 2]
+                if pinned:
+                    mism.append(dict(where, kind='pinned-after-step', real=pinned))
+            prev_to = step['to']
             rp = P.proj(t, emb, is_set)
             if rp != setify(step['to']):
                 mism.append(dict(where, kind='structure', model=setify(step['to']), real=rp))
